@@ -12,3 +12,36 @@ func init() {
 		Trusted: []string{"T1 go toolchain, go/types, solvers", "T2 govc VC generator", "T5 library contracts: strings.Split/HasPrefix/HasSuffix/TrimSuffix/Index, strconv.Atoi, path.Base", "T6 spec functions in /verif/specs/build.smt2 transcribe go/build"},
 	})
 }
+
+func init() {
+	register(&PropDef{
+		ID: "C08", Patterns: []string{"./interp"},
+		Extra: func(r *Run) {
+			r.frameCondition("interp")
+		},
+		Covered: []string{"frame condition on every run-time closure: generation-time (captured) state is read-only"},
+		Uncov:   []string{"schedules and output equality under interleavings", "races the script itself causes inside frame data", "aliasing through locals (c := captured; c[i] = ...) is not tracked"},
+		Trusted: []string{"T1 go toolchain, go/types", "T2 govc frame checker"},
+	})
+}
+
+func init() {
+	register(&PropDef{
+		ID: "C14", Patterns: []string{"./stdlib", "./stdlib/unsafe", "./stdlib/syscall", "./stdlib/unrestricted"},
+		Extra: func(r *Run) {
+			st := r.checkBindings([]string{"stdlib", "unsafe", "syscall", "unrestricted"}, true)
+			// files the installed toolchain does not select: other release, other platforms
+			r.syntacticBindings([]string{"stdlib/go1_21_*.go", "stdlib/syscall/go1_2*_syscall_*.go", "stdlib/unrestricted/go1_2*_*.go", "stdlib/unsafe/go1_21_*.go"}, st)
+			r.Extra["tables"] = st.tables
+			r.Extra["ground_entries_checked"] = st.entries
+			r.Extra["entries_by_form"] = map[string]int{"func_or_typed_const": st.funcs, "var_by_address": st.vars, "type": st.types_, "const_literal": st.consts, "wrapper": st.wrappers}
+			r.Extra["wrapper_methods_checked"] = st.wrapperMethods
+			r.Extra["completeness_objects_checked"] = st.complete
+			r.Extra["entries_checked_syntactically_only"] = st.syntactic
+			r.FuncsUC = append(r.FuncsUC, "every generated init of stdlib, stdlib/unsafe, stdlib/syscall, stdlib/unrestricted", "every generated wrapper method")
+		},
+		Covered: []string{"binding identity of every entry (typed for the host platform and release)", "exact value of re-materialised constants", "by-address binding of variables", "completeness vs. the package scope", "wrapper struct/method forwarding"},
+		Uncov:   []string{"go1.21 files and non-host syscall platform files are checked syntactically only (key/qualifier/selector agreement) in the quick tier", "stdlib/wrapper-composed.go and maptypes.go (hand written)"},
+		Trusted: []string{"T1 go toolchain, go/types, go/constant", "T2 govc ground evaluator", "restricted replacements are taken from the documented list (extract.go `restricted`)"},
+	})
+}
